@@ -83,7 +83,9 @@ def split_command_line(command_line):
     state_doublequote = 3
     # The state when consuming whitespace between commands.
     state_whitespace = 4
-    state = state_basic
+    # Leading whitespace is a separator like any other: start "between
+    # arguments" so that it does not produce an empty first argument.
+    state = state_whitespace
 
     for c in command_line:
         if state == state_basic or state == state_whitespace:
